@@ -4,6 +4,8 @@ import (
 	"fmt"
 	"go/constant"
 	"go/types"
+	"sort"
+	"strconv"
 	"strings"
 
 	"golang.org/x/tools/go/ssa"
@@ -472,7 +474,7 @@ func (fc *FnCtx) selectField(env *Env, x Val, name string) (Val, error) {
 		if cur.SV == nil && svst != nil && !env.noInv && needsInv(ti.sortOf(ft), ft) {
 			c := fc.q.freshConst("cx_"+sanitize(name), ti.sortOf(ft))
 			fc.q.assert(implies(env.cur.reach, eq(c, cur.T)))
-			fc.typeInvB(env.cur, c, ft, svst.boundOf(ti.fieldArray(t, idx)))
+			fc.typeInvB(env.cur, c, ft, refinedBound(svst, ti.fieldArray(t, idx), cur.T))
 			cur.T = c
 		} else if cur.SV == nil && svst != nil && env.noInv && env.binderInvs != nil {
 			fc.arrayTypingAxiom(svst, ti.fieldArray(t, idx), ft)
@@ -751,26 +753,64 @@ func (fc *FnCtx) evalCall(env *Env, e *Expr) (Val, error) {
 		fname := fc.q.recFun(bv, body.T)
 		return Val{T: app(fname, nv.T), Typ: intT}, nil
 	case "unchangedOutside":
-		// unchangedOutside(s): every heap cell the function may write keeps its value unless it lies in the backing array of s
-		x, err := fc.eval(env, e.Args[0])
-		if err != nil {
-			return Val{}, err
-		}
-		if fc.vsort(x) != sSlice {
-			return Val{}, fmt.Errorf("unchangedOutside() needs a slice")
+		// unchangedOutside(x, ...): every heap cell that existed at entry and that the function may write keeps its value
+		// unless it lies in the allocation of one of the arguments (the backing array of a slice, the object a pointer
+		// points into)
+		var bases, mapBases []string
+		for _, a := range e.Args {
+			x, err := fc.eval(env, a)
+			if err != nil {
+				return Val{}, err
+			}
+			isMap := false
+			if x.Typ != nil {
+				_, isMap = x.Typ.Underlying().(*types.Map)
+			}
+			switch {
+			case isMap:
+				// a map object only has cells in the map arrays
+				mapBases = append(mapBases, "(rbase "+x.T+")")
+			case fc.vsort(x) == sSlice:
+				bases = append(bases, "(rbase (sarr "+x.T+"))")
+			case fc.vsort(x) == sRef:
+				bases = append(bases, "(rbase "+x.T+")")
+			default:
+				return Val{}, fmt.Errorf("unchangedOutside() needs slices, pointers or maps")
+			}
 		}
 		var cs []string
-		for _, a := range env.frameArrs {
+		arrs := env.frameArrs
+		if arrs == nil {
+			// inside the function under verification: every array whose current version differs from the entry version
+			for a := range fc.g.arrSort {
+				arrs = append(arrs, a)
+			}
+			sort.Strings(arrs)
+		}
+		for _, a := range arrs {
 			if _, ok := fc.g.arrSort[a]; !ok {
 				continue
 			}
 			o, n := env.pre.get(a), env.cur.get(a)
-			if o == n {
+			if o == n || onlyFreshStores(n, o, env.pre) {
 				continue
 			}
 			fc.q.fresh++
 			rv := fmt.Sprintf("ur_%d", fc.q.fresh)
-			cs = append(cs, fmt.Sprintf("(forall ((%s Ref)) (! (=> (and (not (= (rbase %s) (rbase (sarr %s)))) (<= (rbase %s) %s)) (= (select %s %s) (select %s %s))) :pattern ((select %s %s))))", rv, rv, x.T, rv, env.pre.alloc(), n, rv, o, rv, n, rv))
+			var out []string
+			bs := bases
+			if strings.HasPrefix(a, "M_") {
+				bs = mapBases
+			}
+			for _, b := range bs {
+				out = append(out, fmt.Sprintf("(not (= (rbase %s) %s))", rv, b))
+			}
+			out = append(out, fmt.Sprintf("(<= (rbase %s) %s)", rv, env.pre.alloc()))
+			var pats []string
+			for _, leaf := range fc.arrayLeaves(a, n) {
+				pats = append(pats, fmt.Sprintf(":pattern ((select %s %s))", leaf, rv))
+			}
+			cs = append(cs, fmt.Sprintf("(forall ((%s Ref)) (! (=> %s (= (select %s %s) (select %s %s))) %s))", rv, and(out...), n, rv, o, rv, strings.Join(pats, " ")))
 		}
 		return Val{T: and(cs...), Typ: boolT}, nil
 	case "backing":
@@ -779,8 +819,12 @@ func (fc *FnCtx) evalCall(env *Env, e *Expr) (Val, error) {
 		if err != nil {
 			return Val{}, err
 		}
+		if fc.vsort(x) == sRef {
+			// a pointer: identity of the allocation it points into
+			return Val{T: "(rbase " + x.T + ")", Typ: intT}, nil
+		}
 		if fc.vsort(x) != sSlice {
-			return Val{}, fmt.Errorf("backing() needs a slice")
+			return Val{}, fmt.Errorf("backing() needs a slice or a pointer")
 		}
 		return Val{T: "(rbase (sarr " + x.T + "))", Typ: intT}, nil
 	case "typeid":
@@ -903,4 +947,64 @@ func (fc *FnCtx) arrayTypingAxiom(st *State, arr string, t types.Type) {
 		}
 	}
 	visit(st.get(arr), 0)
+}
+
+// arrayLeaves: the terms to use in quantifier patterns for reads of the array term t of arr: t itself when it contains no
+// defined (inlined) constant, otherwise the declared array constants it is built from (a select over a definition by
+// cases or a lambda is rewritten by the solver and cannot serve as a pattern).
+func (fc *FnCtx) arrayLeaves(arr, t string) []string {
+	as := fc.g.arrSort[arr]
+	hasDef := false
+	var leaves []string
+	seen := map[string]bool{}
+	var visit func(term string, depth int)
+	visit = func(term string, depth int) {
+		for _, c := range fc.symbolsOf(term) {
+			if seen[c] || fc.q.declared[c] != as {
+				continue
+			}
+			seen[c] = true
+			if body, isDef := fc.q.defined[c]; isDef {
+				hasDef = true
+				if depth < 8 {
+					visit(body, depth+1)
+				}
+				continue
+			}
+			leaves = append(leaves, c)
+		}
+	}
+	visit(t, 0)
+	if !hasDef || len(leaves) == 0 {
+		return []string{t}
+	}
+	return leaves
+}
+
+// onlyFreshStores: n is o with stores to cells of objects allocated after the state pre only (such stores never touch a
+// cell that existed in pre).
+func onlyFreshStores(n, o string, pre *State) bool {
+	for n != o {
+		if !strings.HasPrefix(n, "(store ") {
+			return false
+		}
+		parts := splitTop(n[1 : len(n)-1])
+		if len(parts) != 4 || !strings.HasPrefix(parts[2], "(mkref ") {
+			return false
+		}
+		ip := splitTop(parts[2][1 : len(parts[2])-1])
+		if len(ip) != 3 {
+			return false
+		}
+		m := allocPlus.FindStringSubmatch(ip[1])
+		if m == nil || m[1] != pre.allocB {
+			return false
+		}
+		k, err := strconv.Atoi(m[2])
+		if err != nil || k <= pre.allocK {
+			return false
+		}
+		n = parts[1]
+	}
+	return true
 }
